@@ -6,10 +6,12 @@ pub mod c02;
 pub mod c03;
 pub mod c06;
 pub mod c07;
+pub mod c08;
 pub mod c09;
 pub mod c11;
 pub mod c12;
 pub mod c13;
+pub mod c14;
 
 pub fn spec(id: &str) -> Option<PropSpec> {
     match id {
@@ -18,10 +20,12 @@ pub fn spec(id: &str) -> Option<PropSpec> {
         "C03" => Some(c03::spec()),
         "C06" => Some(c06::spec()),
         "C07" => Some(c07::spec()),
+        "C08" => Some(c08::spec()),
         "C09" => Some(c09::spec()),
         "C11" => Some(c11::spec()),
         "C12" => Some(c12::spec()),
         "C13" => Some(c13::spec()),
+        "C14" => Some(c14::spec()),
         _ => None,
     }
 }
